@@ -1,0 +1,108 @@
+//go:build verif
+
+// Machine-checked contracts for package certificate (comment-only file; never
+// compiled into the library).  Read by /verif/engine (gvc).
+
+package certificate
+
+// Representation invariant established by every parser/constructor of this
+// package: one type byte and two length bytes, each in a backing array of
+// exactly that size (so that Bytes() can never append in place).
+//@ spec func CertInv(c *Certificate) bool {
+//@   return c != nil && len(c.kind) == 1 && cap(c.kind) == 1 && len(c.len) == 2 && cap(c.len) == 2
+//@ }
+
+// Wire image of a certificate: type, declared length, payload cut at the
+// declared length (or at what is there, if shorter).
+//@ spec func CertWire(c *Certificate) []byte { return cat(c.kind, c.len, sub(c.payload, 0, u16(c.len))) }
+
+//@ spec func CertType(c *Certificate) int { return int(c.kind[0]) }
+//@ spec func CertLen(c *Certificate) int { return u16(c.len) }
+//@ spec func CertPayload(c *Certificate) []byte { return c.payload }
+
+//@ contract ReadCertificate(data []byte) (certificate *Certificate, remainder []byte, err error)
+//@   ensures @C03 @C01 (err == nil) == (len(data) >= 3 && u16(data[1:3]) <= len(data)-3)
+//@   ensures @C03 err != nil ==> certificate == nil && same(remainder, data)
+//@   ensures @C01 @C03 err == nil ==> CertInv(certificate) && seqeq(CertWire(certificate), data[:3+u16(data[1:3])])
+//@   ensures @C03 err == nil ==> suffix(remainder, data, 3+u16(data[1:3]))
+//@   ensures @C01 err == nil ==> seqeq(certificate.kind, data[0:1]) && seqeq(certificate.len, data[1:3]) && seqeq(certificate.payload, data[3:])
+//@   ensures @C08 err == nil ==> fresh(certificate.kind) && fresh(certificate.len) && fresh(certificate.payload)
+//@   modifies nothing
+
+//@ contract (c *Certificate) Bytes() (b []byte)
+//@   requires c == nil || CertInv(c)
+//@   ensures c == nil ==> b == nil
+//@   ensures @C01 CertInv(c) ==> seqeq(b, CertWire(c)) && fresh(b)
+//@   modifies nothing
+
+//@ contract (c *Certificate) RawBytes() (b []byte)
+//@   requires c == nil || CertInv(c)
+//@   ensures c == nil ==> b == nil
+//@   ensures CertInv(c) ==> seqeq(b, cat(c.kind, c.len, c.payload)) && fresh(b)
+//@   modifies nothing
+
+//@ contract (c *Certificate) IsValid() (ok bool)
+//@   ensures ok == (c != nil && len(c.kind) != 0 && len(c.len) != 0)
+//@   modifies nothing
+
+//@ contract (c *Certificate) Type() (certType int, err error)
+//@   requires c == nil || CertInv(c)
+//@   ensures (err == nil) == (c != nil)
+//@   ensures err == nil ==> certType == CertType(c)
+//@   ensures err != nil ==> certType == 0
+//@   modifies nothing
+
+//@ contract (c *Certificate) Length() (length int, err error)
+//@   requires c == nil || CertInv(c)
+//@   ensures (err == nil) == (c != nil)
+//@   ensures err == nil ==> length == CertLen(c)
+//@   modifies nothing
+
+//@ contract (c *Certificate) Data() (data []byte, err error)
+//@   requires c == nil || CertInv(c)
+//@   ensures (err == nil) == (c != nil)
+//@   ensures err == nil ==> seqeq(data, sub(c.payload, 0, u16(c.len))) && within(data, c.payload)
+//@   modifies nothing
+
+//@ contract NewCertificate() (c *Certificate)
+//@   ensures CertInv(c) && CertType(c) == 0 && CertLen(c) == 0 && len(c.payload) == 0
+//@   modifies nothing
+
+//@ contract NewCertificateWithType(certType uint8, payload []byte) (c *Certificate, err error)
+//@   ensures @C14 (err == nil) == (certType <= 5 && len(payload) <= 65535 && (certType != 0 || len(payload) == 0) && (certType != 2 || len(payload) == 0) && (certType != 3 || len(payload) == 40 || len(payload) == 72))
+//@   ensures @C14 err == nil ==> CertInv(c) && CertType(c) == int(certType) && CertLen(c) == len(payload) && seqeq(c.payload, payload) && fresh(c.payload)
+//@   ensures err != nil ==> c == nil
+//@   modifies nothing
+
+//@ lemma C01_ReadCertificate(data []byte) {
+//@   c, rem, err := ReadCertificate(data)
+//@   if err == nil {
+//@     assert(seqeq(c.Bytes(), data[:len(data)-len(rem)]))
+//@   }
+//@ }
+
+//@ lemma C03_ReadCertificate_trailing(d1 []byte, d2 []byte, k int) {
+//@   assume(0 <= k && k <= len(d1) && k <= len(d2) && seqeq(d1[:k], d2[:k]))
+//@   c1, r1, e1 := ReadCertificate(d1)
+//@   c2, r2, e2 := ReadCertificate(d2)
+//@   if e1 == nil && len(d1)-len(r1) <= k {
+//@     assert(e2 == nil && len(d2)-len(r2) == len(d1)-len(r1) && seqeq(c1.Bytes(), c2.Bytes()))
+//@   }
+//@ }
+
+//@ lemma C03_ReadCertificate_noprefix(w []byte, j int) {
+//@   _, r, e := ReadCertificate(w)
+//@   if e == nil && len(r) == 0 && 0 <= j && j < len(w) {
+//@     _, _, e2 := ReadCertificate(w[:j])
+//@     assert(e2 != nil)
+//@   }
+//@ }
+
+//@ lemma C14_CertificateRoundTrip(certType uint8, payload []byte) {
+//@   c, err := NewCertificateWithType(certType, payload)
+//@   if err == nil {
+//@     b := c.Bytes()
+//@     c2, rem, e2 := ReadCertificate(b)
+//@     assert(e2 == nil && len(rem) == 0 && seqeq(c2.Bytes(), b))
+//@   }
+//@ }
